@@ -305,6 +305,8 @@ def mk_call(callee, pos, kw, sig=None):
             a, b = pos
             return {"div": lambda: mk_prod([a], [b]), "mul": lambda: mk_prod([a, b]),
                     "add": lambda: add(a, b), "sub": lambda: sub(a, b)}[kind]()
+    if callee == ("f", "builtins.dict") and not pos and kw and not star:
+        return ("dict", tuple(sorted(((K(k), v) for k, v in kw), key=_key)))
     if callee == ("f", "numpy.power") and len(pos) == 2 and not kw and pos[1] in (K(2), K(0.5)):
         return mk_call(F("numpy.square" if pos[1] == K(2) else "numpy.sqrt"), (pos[0],), ())
     if callee[0] == "attr" and callee[2] in ARRAY_METHODS and not star:
